@@ -25,7 +25,7 @@ PID = "C27"
 LEVEL = "exploration"
 TECHNIQUE = "Hypothesis op-sequence histories against the real DNSLayer + plain model; metamorphic re-segmentation of TCP streams"
 RULE = ("histories of 1-10 ops on one connection: client queries (ids from a 4-element set so they collide while outstanding "
-        "and after completion, 6 names incl. IDN, names select the addon policy pass/respond/error), upstream replies "
+        "and after completion, 11 names incl. IDN and DNS-0x20 style mixed case (half of the queries), names select the addon policy pass/respond/error), upstream replies "
         "(to any earlier forwarded query, unsolicited id, duplicate), malformed client frames (zero length prefix, garbage "
         "message), closes; upstream ok|connect-failure|none; UDP and TCP; TCP streams delivered message-aligned, coalesced, "
         "cut at generated positions, and (1/10 of TCP cases) at every single position of the first stream (<= 100); non-trivial = history contains an "
@@ -42,7 +42,10 @@ QUICK_N, THOROUGH_N = 45_000, 4_000_000
 BUDGET_S = (240, 5400)
 
 IDS = [1, 2, 0xC00C, 65535]
-NAMES = [["a", "test"], ["b", "test"], ["err", "test"], ["ans", "test"], ["ü", "test"], ["A", "test"]]
+NAMES = [["a", "test"], ["b", "test"], ["err", "test"], ["ans", "test"], ["ü", "test"], ["A", "test"],
+         ["wWw", "ExAmPlE", "cOm"], ["eRr", "TEST"], ["Ans", "tesT"], ["B", "Test"], ["MAIL", "a", "test"]]
+#: names used most of the time: lower case, and DNS-0x20 style mixed case
+COMMON_NAMES = [0, 1, 6, 9]
 _OPTS = None
 
 
@@ -64,7 +67,7 @@ def gen_history(b: bytes):
     for _ in range(1 + s.below(10)):
         k = s.below(16)
         if k < 7 or nq == 0:
-            ops.append(["q", (s.pick(IDS) if s.below(2) else s.u16()), s.below(len(NAMES)) if s.below(3) else s.below(2), s.pick([1, 1, 28, 16]),
+            ops.append(["q", (s.pick(IDS) if s.below(2) else s.u16()), s.below(len(NAMES)) if s.below(3) else s.pick(COMMON_NAMES), s.pick([1, 1, 28, 16]),
                         s.below(2), (0 if s.below(4) else s.below(16))])
             nq += 1
         elif k < 11:
@@ -78,7 +81,7 @@ def gen_history(b: bytes):
         elif k == 14:
             ops.append(["closes"])
         else:
-            ops.append(["q", s.pick(IDS), s.below(2), 1, 1, 0])
+            ops.append(["q", s.pick(IDS), s.pick(COMMON_NAMES), 1, 1, 0])
             nq += 1
     mode = s.pick(["cuts", "cuts", "coalesce", "cuts", "aligned", "cuts", "coalesce", "cuts", "cuts", "all"]) if tr == "tcp" else "aligned"
     cuts = [[s.u16() for _ in range(s.below(4))] for _ in range(4)] if mode == "cuts" else []
@@ -132,7 +135,7 @@ def _dec_ok(m):
 def _msgkey(m):
     """(id, question section) of a mitmproxy DNSMessage, via its wire form and the reference decoder"""
     d = R.decode(m.packed)
-    return (d.id, d.qkey())
+    return (d.id, d.qkey(), d.qkey_exact())
 
 
 def run_history(case, mode, cuts, single_cut=None):
@@ -162,11 +165,11 @@ def run_history(case, mode, cuts, single_cut=None):
             except Exception as e:  # noqa
                 obs.problems.append(("hook-request-unencodable:" + hook.name, repr(e)))
         if hook.name == "dns_request" and req is not None and req.question is not None:
-            n = req.question.name
+            n = req.question.name.lower()
             if n == "err.test":
                 f.error = mflow.Error("addon says no")
             elif n == "ans.test":
-                f.response = req.succeed([mdns.ResourceRecord.A(n, IPv4Address("198.51.100.7"))])
+                f.response = req.succeed([mdns.ResourceRecord.A(req.question.name, IPv4Address("198.51.100.7"))])
         resp = getattr(f, "response", None)
         pk = None
         if resp is not None:
@@ -290,7 +293,7 @@ def run_history(case, mode, cuts, single_cut=None):
 
 
 def NAMES_POLICY(qd):
-    n = qd["q"][0][0]
+    n = R.canon(qd["q"][0][0])
     return "error" if n == (b"err", b"test") else "respond" if n == (b"ans", b"test") else "pass"
 
 
@@ -322,11 +325,13 @@ def check_case(case, ctx):
         return
     sc = None
     # everything the client sent on this connection (a superset of what was processed: permissive, hence sound)
-    sentset = set()
+    sentset = set()    # (id, question section) with names case-folded: which query a message belongs to
+    sentexact = set()  # the same with the octets the client sent: what the client must get back (DNS 0x20)
     for op in ops:
         if op[0] == "q":
             m = R.decode(R.encode(query_desc(op)))
             sentset.add((m.id, m.qkey()))
+            sentexact.add((m.id, m.qkey_exact()))
 
     qids = [op[1] for op in ops if op[0] == "q"]
     has_unsol = any(op[0] == "r" and op[2] == "unsolicited" for op in ops)
@@ -340,8 +345,14 @@ def check_case(case, ctx):
             if not b.startswith("$"):
                 ctx.fail("%s:%s" % (b, "unsolicited" if has_unsol else "no-unsolicited"), "[%s] %s" % (label, msg))
         for name, rk, pk, _err, side in o.hooks:
-            if rk is not None and rk not in sentset:
-                ctx.fail("hook-flow-foreign-request:%s:%s" % (name, idc(rk[0])), "[%s] flow.request %r was never sent by the client" % (label, rk))
+            if rk is not None and rk[:2] not in sentset:
+                ctx.fail("hook-flow-foreign-request:%s:%s" % (name, idc(rk[0])), "[%s] flow.request %r was never sent by the client" % (label, rk[:2]))
+            elif rk is not None and (rk[0], rk[2]) not in sentexact:
+                ctx.fail("hook-request-name-case-changed:%s" % name,
+                         "[%s] flow.request question %r differs in letter case from every query the client sent (%r)" % (
+                             label, rk[2], sorted(sentexact)[:4]))
+            if rk is not None:
+                rk = rk[:2]
             if name == "dns_response" and rk is not None and pk is not None:
                 if (pk[0][0], pk[1]) != rk:
                     # while client data is processed: a stale response kept in a reused flow; while upstream data is
@@ -359,6 +370,10 @@ def check_case(case, ctx):
             if (dm.id, dm.qkey()) not in sentset:
                 ctx.fail("reply-unmatched:%s" % idc(dm.id), "[%s] reply id=%d question=%r answers no query the client sent (%r)" % (
                     label, dm.id, dm.questions, sorted(sentset)[:6]))
+            elif (dm.id, dm.qkey_exact()) not in sentexact:
+                ctx.fail("reply-question-case-changed:%s" % ("servfail" if dm.rcode == 2 and not any(dm.sections) else "answer"),
+                         "[%s] reply id=%d echoes the question as %r, the client sent %r" % (
+                             label, dm.id, dm.questions, [k for k in sorted(sentexact) if k[0] == dm.id][:4]))
 
     check_obs(obs, "aligned")
 
@@ -400,6 +415,8 @@ def check_case(case, ctx):
                     r = R.decode(new_client[0])
                     if (r.rcode, r.qr) != (2, 1) or (r.id, r.qkey()) != (q.id, q.qkey()):
                         ctx.fail("servfail-wrong:%s" % sc, "query %r answered with %r" % (q, r))
+                    elif r.qkey_exact() != q.qkey_exact():
+                        ctx.fail("servfail-question-case-changed", "query %r answered with SERVFAIL for %r" % (q, r.questions))
                     elif (r.opcode, r.rd) != (q.opcode, q.rd):
                         ctx.fail("servfail-flags:%s" % sc, "query %r (opcode %d rd %d) answered with opcode %d rd %d" % (
                             q, q.opcode, q.rd, r.opcode, r.rd))
@@ -412,10 +429,14 @@ def check_case(case, ctx):
                     r = R.decode(new_client[0])
                     if (r.id, r.qkey()) != (q.id, q.qkey()):
                         ctx.fail("addon-response-wrong-query:%s" % sc, "%r answered with %r" % (q, r))
+                    elif r.qkey_exact() != q.qkey_exact():
+                        ctx.fail("addon-response-question-case-changed", "%r answered with question %r" % (q, r.questions))
             else:
                 # passed upstream: the query must reach the upstream server unchanged in meaning
                 if len(new_server) == 1 and R.decode(new_server[0]).key() != q.key():
                     ctx.fail("query-changed:%s" % sc, "%r forwarded as %r" % (q, R.decode(new_server[0])))
+                elif len(new_server) == 1 and R.decode(new_server[0]).key_exact() != q.key_exact():
+                    ctx.fail("query-name-case-changed", "%r forwarded upstream as %r" % (q, R.decode(new_server[0])))
         elif op[0] == "r" and data is not None:
             raw = R.tcp_frames(data)[0][0] if tr == "tcp" else data
             up = R.decode(raw)
@@ -425,6 +446,8 @@ def check_case(case, ctx):
                     ctx.fail("upstream-reply-not-forwarded:%s" % sc, "reply %r produced %d client messages" % (up, len(new_client)))
                 elif R.decode(new_client[0]).key() != up.key():
                     ctx.fail("upstream-reply-changed:%s" % sc, "%r forwarded as %r" % (up, R.decode(new_client[0])))
+                elif R.decode(new_client[0]).key_exact() != up.key_exact():
+                    ctx.fail("upstream-reply-name-case-changed", "%r forwarded as %r" % (up, R.decode(new_client[0])))
         elif op[0] == "bad" and side == "c" and tr == "tcp" and op[1] == "zero":
             # malformed length prefix: connection closed, nothing forwarded from that point
             if new_server or new_client:
